@@ -6,12 +6,15 @@
 package harness
 
 import (
+	"bytes"
 	"crypto/sha256"
 	"encoding/hex"
 	"encoding/json"
 	"fmt"
 	"math/big"
+	"os"
 	"sort"
+	"strconv"
 	"time"
 
 	abci "github.com/tendermint/tendermint/abci/types"
@@ -83,6 +86,8 @@ func NewAcct(label string) Acct {
 // about it (validator keys, last signed header).
 type Chain struct {
 	App          *app.Teleport
+	DB           dbm.DB // the application's database (a restarted node opens a new application on it)
+	commits      int
 	ChainID      string // tendermint chain id == xibc chain name
 	TxConfig     client.TxConfig
 	Header       tmproto.Header      // header of the block being built
@@ -231,7 +236,7 @@ func NewChain(o ChainOpts) *Chain {
 		ConsensusParams: app.DefaultConsensusParams, AppStateBytes: stateBytes,
 		Time: StartTime,
 	})
-	c := &Chain{App: a, ChainID: o.ChainID, TxConfig: enc.TxConfig, Vals: valSet,
+	c := &Chain{App: a, DB: db, ChainID: o.ChainID, TxConfig: enc.TxConfig, Vals: valSet,
 		Signers: []tmtypes.PrivValidator{pv}, Accts: o.Accts, Now: StartTime,
 		Hdrs: map[int64]*xibctmtypes.Header{}, Val2Cons: val2Cons}
 	a.Commit()
@@ -290,6 +295,7 @@ func (c *Chain) CommitAdvance(d time.Duration) {
 	c.EndBlock()
 	c.App.Commit()
 	DetRecord(fmt.Sprintf("commit|%x", c.App.LastCommitID().Hash), nil)
+	c.MaybeRestart()
 	c.LastHdr = c.signedHeader(c.ChainID, c.Header.Height, c.Header.Time, c.Header.AppHash, c.Vals, c.Vals, c.Signers)
 	c.Hdrs[c.Header.Height] = c.LastHdr
 	c.Now = c.Now.Add(d)
@@ -297,6 +303,24 @@ func (c *Chain) CommitAdvance(d time.Duration) {
 		AppHash: c.App.LastCommitID().Hash, ValidatorsHash: c.Vals.Hash(), NextValidatorsHash: c.Vals.Hash(),
 		ProposerAddress: c.Vals.Proposer.Address}
 	c.beginBlock()
+}
+
+// MaybeRestart: with VERIF_RESTART_EVERY=k the node is restarted after every k-th commit - a new application object is
+// opened on the same database (what a crash recovery, an upgrade of the binary or a state-synced node runs on); what
+// the next blocks do must not depend on anything the old process only held in memory.
+func (c *Chain) MaybeRestart() {
+	k, _ := strconv.Atoi(os.Getenv("VERIF_RESTART_EVERY"))
+	c.commits++
+	if k <= 0 || c.DB == nil || c.commits%k != 0 {
+		return
+	}
+	h, hash := c.App.LastBlockHeight(), c.App.LastCommitID().Hash
+	enc := encoding.MakeConfig(app.ModuleBasics)
+	a := app.NewTeleport(log.NewNopLogger(), c.DB, nil, true, map[int64]bool{}, app.DefaultNodeHome, 5, enc, simapp.EmptyAppOptions{})
+	if a.LastBlockHeight() != h || !bytes.Equal(a.LastCommitID().Hash, hash) {
+		panic(fmt.Sprintf("restart: reopened at height %d (%x), expected %d (%x)", a.LastBlockHeight(), a.LastCommitID().Hash, h, hash))
+	}
+	c.App = a
 }
 
 // SetTime moves the clock of the block being built (re-runs BeginBlock like the repository's coordinator).
